@@ -113,6 +113,42 @@ FS_MC = [("FailFileFS", "FSMC_0.cfg", "hold", ("quick", "thorough")), ("FailFile
          ("FailFileFS", "FSMC_broken_small.cfg", "violate", ("quick", "thorough"))]
 
 
+def apalache_induction(tier):
+    """Unbounded safety of the save protocol (every number of write operations) by an inductive invariant, discharged with Apalache.
+    Returns notes for the evidence; a failed obligation of the implementation's design is a model-level problem (exit 2), like a failing TLC design model."""
+    if not shutil.which("apalache-mc"):
+        return [{"apalache": "not installed: the inductive argument was not run"}]
+    wd = core.scratch("verif-apalache-")
+    notes = []
+    try:
+        for fn in ("FailFileFS.tla", "FailFileFSInd.tla"):
+            shutil.copy(os.path.join(core.SPEC, fn), wd)
+        runs = [("CInit", "--init=Init --inv=IndInv --length=0", True), ("CInit", "--init=IndInit --inv=IndInv --length=1", True),
+                ("CInit", "--init=IndInit --inv=AtomicVisible --length=0", True)]
+        if tier == "thorough":
+            runs += [("CInitDirect", "--init=IndInit --inv=IndInv --length=1", False), ("CInitRename", "--init=IndInit --inv=IndInv --length=1", False)]
+        for cinit, args, hold in runs:
+            t0 = time.time()
+            try:
+                p = subprocess.run(["apalache-mc", "check", "--cinit=" + cinit, *args.split(), "FailFileFSInd.tla"], cwd=wd, capture_output=True, text=True, timeout=600)
+            except subprocess.TimeoutExpired:
+                notes.append({"apalache": cinit + " " + args, "result": "timeout (not counted)"})
+                continue
+            ok = "The outcome is: NoError" in p.stdout
+            err = "The outcome is: Error" in p.stdout
+            if not ok and not err:
+                notes.append({"apalache": cinit + " " + args, "result": "did not run (not counted)"})
+                continue
+            if hold and not ok:
+                raise core.Undecided("Apalache: obligation of the inductive invariant fails for the implementation's design: " + args + "\n" + p.stdout[-1500:])
+            if not hold and ok:
+                raise core.Undecided("Apalache: the inductive step holds for a wrong design (" + cinit + "): vacuous")
+            notes.append({"apalache": cinit + " " + args, "result": "holds" if ok else "fails (expected: wrong design)", "wall_s": round(time.time() - t0, 1)})
+    finally:
+        shutil.rmtree(wd, ignore_errors=True)
+    return notes
+
+
 def sizes(tier):
     # (lines, bytes per line, words): 0 B, ~100 B, multi-write, 64 KiB, (thorough) 1 MiB outputs and long bitstreams
     base = [(0, 0, 0), (1, 60, 3), (3, 100, 10), (40, 200, 30), (1, 65536, 5), (200, 10, 2)]
@@ -228,6 +264,7 @@ def run(tier, seed, replay, keep):
         core.log(f"   scenario {v['scenario']}: obligations violated: {v['names']}")
         rc = 1
     states, trans, notes = props.run_mc(FS_MC, tier)
+    notes = notes + apalache_induction(tier)
     if kills < 2:
         raise core.Undecided("no crash point could be exercised")
     coverage = {"states": states + val["tlc_states"], "transitions": trans + val["lines"], "traces_validated_against_impl": val["scenarios"],
